@@ -315,8 +315,8 @@ def edgeD2 (t : Table) (e : Int × Int) : Option Nat :=
   | _, _ => none
 
 /-- `u` is an admissible healing of `t`: same rows (ids, coordinates, order), a well-formed forest, every
-old edge still there, one new edge per merged fragment, and every new edge strictly shorter than
-`max_dist`. -/
+old edge still there, one new edge per merged fragment, and no new edge longer than `max_dist`
+(what the property demands; the code is stricter: `<`). -/
 def healOKB (t u : Table) (maxD2 : Option Nat) : Bool :=
   sameCoords t u && wfB u &&
   (uedges t).all (fun e => (uedges u).contains e) &&
@@ -324,7 +324,7 @@ def healOKB (t u : Table) (maxD2 : Option Nat) : Bool :=
   (newEdges t u).all fun e =>
     match maxD2, edgeD2 t e with
     | none, some _ => true
-    | some m, some d => decide (d < m)
+    | some m, some d => decide (d ≤ m)
     | _, none => false
 
 end Navis.Heal
